@@ -48,18 +48,13 @@ func (u *User) Read(p []byte) (int, error) {
 	nameLen := make([]byte, 2)
 	binary.BigEndian.PutUint16(nameLen, uint16(len(u.Name)))
 
-	if len(u.Icon) == 4 {
-		u.Icon = u.Icon[2:]
-	}
-
-	if len(u.Flags) == 4 {
-		u.Flags = u.Flags[2:]
-	}
-
+	// Icon and flags each take exactly two bytes of the record, whatever the client sent them as: clients send
+	// these integers in two or four bytes, and a client that leaves the icon out (or sends it empty, or in one byte)
+	// must not shift the rest of the record for everybody who lists the users.
 	b := slices.Concat(
 		u.ID[:],
-		u.Icon,
-		u.Flags,
+		LowTwoBytes(u.Icon),
+		LowTwoBytes(u.Flags),
 		nameLen,
 		[]byte(u.Name),
 	)
@@ -72,6 +67,18 @@ func (u *User) Read(p []byte) (int, error) {
 	u.readOffset += n
 
 	return n, nil
+}
+
+// LowTwoBytes returns the two low-order bytes of a big-endian integer of any length (zero-extended if shorter).
+// A user's icon is kept in this form, however the client encoded it.
+func LowTwoBytes(b []byte) []byte {
+	switch len(b) {
+	case 0:
+		return []byte{0, 0}
+	case 1:
+		return []byte{0, b[0]}
+	}
+	return b[len(b)-2:]
 }
 
 func (u *User) Write(p []byte) (int, error) {
